@@ -34,7 +34,7 @@ type c06Workload struct {
 	Procs      int      `json:"gomaxprocs"`
 	Iterations int      `json:"iterations"`
 	Texts      []string `json:"texts"`
-	Extra      []string `json:"extra_docs"` // generated documents merged into the per-goroutine inputs
+	Extra      []string `json:"extra_docs"`  // generated documents merged into the per-goroutine inputs
 	ShareInput bool     `json:"share_input"` // goroutines with the same index modulo 2 read one and the same input object
 }
 
